@@ -2,6 +2,7 @@ package e1
 
 import (
 	"fmt"
+	"github.com/polynetwork/poly/account"
 	"sort"
 
 	"github.com/polynetwork/poly/common"
@@ -87,6 +88,7 @@ func (s *Sim) catchup(st kernel.Step) {
 	if from >= top {
 		return
 	}
+	from0 := from
 	scenario := int(abs(st.Arg(0))) % 3
 	applyBlock := func(i int) bool { // i = height
 		b := s.Blocks[i-1]
@@ -97,6 +99,7 @@ func (s *Sim) catchup(st kernel.Step) {
 			s.Dead = true
 			return false
 		}
+		s.lookupsOn(nd, b, true)
 		return true
 	}
 	switch scenario {
@@ -127,7 +130,7 @@ func (s *Sim) catchup(st kernel.Step) {
 		}
 		from += j
 		// every refusable kind first (a refused header leaves everything unchanged), the plan's kind last
-		for _, k := range []int{3, 4, 1, 2, int(abs(st.Arg(2)))} {
+		for _, k := range []int{3, 4, 1, 2, 5, 6, int(abs(st.Arg(2)))} {
 			s.byzantineHeader(nd, uint32(top), k, abs(st.Arg(3)))
 			if s.Dead {
 				return
@@ -201,7 +204,12 @@ func (s *Sim) catchup(st kernel.Step) {
 			return
 		}
 	}
-	// caught up: must equal the producer
+	// caught up: every height still resolves to the committed block (a rival header accepted
+	// for a height must not survive the commit of the real block), and the follower equals the producer
+	for i := from0 + 1; i <= top; i++ {
+		s.lookupsOn(nd, s.Blocks[i-1], i == top)
+	}
+	run.Probe("lagging_replica_lookups_checked")
 	if o, p := observe(nd), observe(s.Prod()); o != p {
 		run.Fail("C16", "lagging-replica-differs", "after catching up %s differs from the producer\n got %s\nwant %s", nd.Name, o, p)
 	}
@@ -224,7 +232,7 @@ func (s *Sim) byzantineHeader(nd *chain.Node, hh uint32, kind int, salt int64) {
 	acc := s.accountsOf(members)
 	need := s.requiredFor(hh, len(members))
 	name := ""
-	switch kind % 5 {
+	switch kind % 7 {
 	case 0:
 		name = "valid-control"
 		chain.Seal(blk, acc)
@@ -274,6 +282,19 @@ func (s *Sim) byzantineHeader(nd *chain.Node, hh uint32, kind int, salt int64) {
 		fa := s.accountsOf(ks)
 		sealRaw(blk, fa, fa, nil)
 		run.Probe("header_sealed_by_block_tip_set_while_headers_ahead")
+	case 5: // quorum of members listed first, then an outsider signing in place of one of them
+		if need < 1 || len(acc) < need {
+			return
+		}
+		out := s.Users[int(abs(salt))%len(s.Users)]
+		name = "foreign-key-listed-after-quorum"
+		sealRaw(blk, append(append([]*account.Account{}, acc[:need]...), out), append(append([]*account.Account{}, acc[:need-1]...), out), nil)
+	case 6: // quorum of members listed first, then one of them again, signing twice
+		if need < 2 || len(acc) < need {
+			return
+		}
+		name = "member-repeated-after-quorum"
+		sealRaw(blk, append(append([]*account.Account{}, acc[:need]...), acc[need-1]), append(append([]*account.Account{}, acc[1:need]...), acc[need-1]), nil)
 	}
 	verdict := s.headerVerdict(nd, hdr, hh)
 	before := observe(nd)
